@@ -632,6 +632,81 @@ func scDups(r *gen.Rand) []scase {
 	return []scase{{c, decorate(r, c, []step{{ops: ops0}, {srcs: srcs, ops: ops1}}, true)}}
 }
 
+// scenario: the GENUINE value is presented first (and decrypts), then — to the same app, the same middleware
+// instance, under the same name, one per request (only the first cookie of a name is looked at) — values that
+// share its first 16/20/24 characters (the base64 of the nonce) and differ behind: a byte changed at a
+// position behind the shared part, a truncation, an extension, a deletion, the tail of ANOTHER genuine value.
+// Nothing the middleware learnt from the genuine request may make it accept these: the request-side view is a
+// function of (configuration, that request's cookies) only (`request_view_stateless`). Some altered values
+// are sent before the genuine one as well, and the genuine one again in between and at the end.
+func scAfterGenuine(r *gen.Rand) []scase {
+	c, _ := genCfg(r, true)
+	if c.next > 1 {
+		c.next = gen.Pick(r, []int{0, 1})
+	}
+	if r.Chance(1, 2) {
+		c.mode = 0 // the built-in pair, Encryptor/Decryptor left nil
+	}
+	name := gen.Pick(r, []string{"a", "sid", "token", "b"})
+	other := name + "2"
+	c.except = without(without(c.except, name), other)
+	plen := gen.Pick(r, []int{0, 1, 5, 8, 16, 17, 30, 60})
+	mk := func() string {
+		b := make([]byte, plen)
+		for i := range b {
+			b[i] = alphabet[r.Intn(62)]
+		}
+		return string(b)
+	}
+	step0 := step{ops: []op{{kind: 'C', name: name, value: mk(), attr: r.Intn(nAttr)}, {kind: 'C', name: other, value: mk(), attr: r.Intn(nAttr)}}}
+	l := (12 + plen + 16 + 2) / 3 * 4
+	if c.mode >= 2 {
+		l++
+	}
+	one := func(ps ...piece) step {
+		return step{srcs: []src{{kind: 'H', val: append([]piece{lit(name + "=")}, ps...)}}}
+	}
+	genuine := one(ref(0, 0))
+	altered := func() step {
+		keep := gen.Pick(r, []int{16, 16, 20, 24})
+		pos := keep + r.Intn(l-keep)
+		switch r.Intn(8) {
+		case 0, 1:
+			return one(ref(0, 0).with(mut{kind: 'f', pos: pos, data: []byte{byte(1 + r.Intn(2))}}))
+		case 2:
+			return one(ref(0, 0).with(mut{kind: 'r', pos: pos, data: []byte{alphabet[r.Intn(64)]}}))
+		case 3:
+			return one(ref(0, 0).with(mut{kind: 't', pos: pos}))
+		case 4:
+			return one(ref(0, 0).with(mut{kind: 'a', data: []byte(gen.Pick(r, []string{"A", "AAAA", "=", "QQ==", "A="}))}))
+		case 5:
+			return one(ref(0, 0).with(mut{kind: 'd', pos: pos}))
+		case 6:
+			// head of the genuine value, tail of another genuine value
+			tail := ref(0, 1)
+			for i := 0; i < keep; i++ {
+				tail = tail.with(mut{kind: 'd', pos: 0})
+			}
+			return one(ref(0, 0).with(mut{kind: 't', pos: keep}), tail)
+		default:
+			return one(ref(0, 0).with(mut{kind: 't', pos: keep})) // nothing but the shared part
+		}
+	}
+	steps := []step{step0}
+	for i := r.Intn(3); i > 0; i-- {
+		steps = append(steps, altered()) // before the genuine value was ever presented
+	}
+	steps = append(steps, genuine)
+	for i := 8 + r.Intn(8); i > 0; i-- {
+		steps = append(steps, altered())
+		if r.Chance(1, 6) {
+			steps = append(steps, genuine)
+		}
+	}
+	steps = append(steps, genuine)
+	return []scase{{c, steps}}
+}
+
 // scenario: a ciphertext under another name / an excepted name, plaintexts sent as if ciphertext
 func scCross(r *gen.Rand) []scase {
 	c, _ := genCfg(r, true)
@@ -705,6 +780,8 @@ func generate(w *gen.Writer, o gen.Opts) {
 		switch k := r.Intn(100); {
 		case k < 3:
 			kind, cases = "tamper-all", scTamperAll(r)
+		case k < 9:
+			kind, cases = "after-genuine", scAfterGenuine(r)
 		case k < 38:
 			kind, cases = "roundtrip", scRoundtrip(r)
 		case k < 78:
